@@ -14,7 +14,7 @@ from typing import Dict, List, Optional, Tuple
 import common
 import spec as S
 
-GEN_VERSION = "32"
+GEN_VERSION = "33"
 
 STRUM_DERIVES = ["EnumString", "Display", "AsRefStr", "IntoStaticStr", "VariantNames", "EnumIter", "EnumCount", "FromRepr",
                  "VariantArray", "EnumDiscriminants", "EnumIs", "EnumTryAs", "EnumMessage", "EnumProperty", "EnumTable",
@@ -498,6 +498,8 @@ def family_placeholders(start: int) -> List[E]:
     evs = [V("Blank", attrs=[["to_string = %s" % rstr("")]]), V("BlankT", "tuple", [(None, "u8")], attrs=[["serialize = %s" % rstr("")]]),
            V("BlankN", "named", [("a", "u8")], attrs=[["to_string = %s" % rstr(""), "serialize = %s" % rstr("bn")]]), V("Full", attrs=[["to_string = %s" % rstr("full")]])]
     out.append(E("Plh%04d" % (start + 62), "placeholders", ["Display", "AsRefStr"], evs, std_derives=["Clone", "Debug"]))
+    evs2 = [V("Unspecified", attrs=[["serialize = %s" % rstr("")]]), V("Known", attrs=[["serialize = %s" % rstr("known"), "serialize = %s" % rstr("kn")]]), V("Plain")]
+    out.append(E("Plh%04d" % (start + 63), "placeholders", ["Display", "AsRefStr", "IntoStaticStr", "EnumString", "VariantNames"], evs2, std_derives=["Clone", "Debug", "PartialEq"]))
     ser_sets = [("SerNamed", "named", [("sat", "u8")], ['serialize = "s"', 'serialize = "sat={sat:03}%"']), ("SerTuple", "tuple", ["u8", "u8"], ['serialize = "{1}/{0} long"', 'serialize = "t"']),
                 ("SerFixed", "tuple", ["u8"], ['serialize = "fixed one"', 'serialize = "f"']), ("SerUnit", "unit", [], ['serialize = "unit name"'])]
     vs = []
@@ -553,7 +555,8 @@ def family_style_ci(start: int) -> List[E]:
     for style in STYLES:
         for e_aci in (False, True):
             vs = [V("HTTPServer"), V("WarnOnly", attrs=[["ascii_case_insensitive = false"]]), V("dark_blue", attrs=[["ascii_case_insensitive"]]),
-                  V("Ok", attrs=[["ascii_case_insensitive = true"]]), V("Mixed9Case")]
+                  V("Ok", attrs=[["ascii_case_insensitive = true"]]), V("Mixed9Case"),
+                  V("\u00c4rger"), V("Gr\u00f6\u00dfe", attrs=[["ascii_case_insensitive"]]), V("\u00c9cole\u00c9t\u00e9", attrs=[["ascii_case_insensitive = false"]])]
             metas = (["serialize_all = %s" % rstr(style)] if style else []) + (["ascii_case_insensitive"] if e_aci else [])
             out.append(E("Sci%04d" % eid, "style_ci", ["EnumString", "Display", "VariantNames", "AsRefStr"], vs, attrs=[metas] if metas else []))
             eid += 1
@@ -820,7 +823,11 @@ def family_same_name(start: int) -> List[E]:
         vs = [V("Off"), V("On"), V("Auto", "tuple", [(None, "u8")]) if tup else V("Auto"), V("Eco", attrs=[["disabled"]]), V("Max")]
         e = E("Mode", "same_name", ders, vs, std_derives=["Clone", "Debug", "PartialEq"])
         e.module_override = "samename%d" % (start + k)
-        e.prelude = legacy
+        # a third one with the same variant *names* as the main enum and another disabled set
+        third = ("pub mod third { use crate::prelude::*;\n#[derive(Clone, Debug, PartialEq, %s)]\n"
+                 "#[cfg_attr(feature = \"renamed\", strum(crate = \"crate::reexp::strum_renamed\"))]\n"
+                 "pub enum Mode { #[strum(disabled)] Off, On, Auto%s, Eco, #[strum(disabled)] Max } }" % (", ".join(ders), "(u8)" if tup else ""))
+        e.prelude = legacy + "\n" + third
         out.append(e)
     return out
 
@@ -831,6 +838,9 @@ def family_snake_collisions(start: int) -> List[E]:
     out = []
     vs = [V("IoError"), V("IOError", attrs=[["disabled"]]), V("Http2"), V("HTTP2", attrs=[["disabled"]]), V("Plain"), V("plain", attrs=[["disabled"]]), V("Last")]
     out.append(E("Snk%04d" % start, "snake_collisions", ["EnumTable", "EnumIs", "EnumIter", "EnumCount", "VariantArray"], vs, std_derives=["Clone", "Copy", "Debug", "PartialEq"]))
+    vs3 = [V("Ma\u00df1"), V("Wei\u00df20"), V("Caf\u00e94Cr\u00e8me"), V("\u00c9t\u00e92", attrs=[["disabled"]]), V("Plain7")]
+    out.append(E("Snk%04d" % (start + 2), "snake_collisions", ["EnumTable", "EnumIs"], vs3, std_derives=["Clone", "Copy", "Debug", "PartialEq"]))
+    out.append(E("Snk%04d" % (start + 3), "snake_collisions", ["EnumTryAs", "EnumIs"], [V(v.name, "tuple", [(None, "u8")], [list(a) for a in v.attrs]) for v in vs3]))
     vs2 = [V("IoError", "tuple", [(None, "u8")]), V("IOError", "tuple", [(None, "u8")], attrs=[["disabled"]]), V("A1", "tuple", [(None, "i32"), (None, "u8")]), V("a_1", "tuple", [(None, "i32"), (None, "u8")], attrs=[["disabled"]])]
     out.append(E("Snk%04d" % (start + 1), "snake_collisions", ["EnumTryAs", "EnumIs"], vs2))
     return out
@@ -1112,6 +1122,19 @@ def family_discriminants(rng: random.Random, start: int) -> List[E]:
         e = E("Dsc%04d" % eid, "discriminants", ["EnumDiscriminants", "FromRepr"], vs, repr=rp, disc_attrs=[["derive(FromRepr, EnumIter)"]])
         out.append(e)
         eid += 1
+    # the companion enum's own #[repr] requested through strum_discriminants(repr(..)) must not touch the source enum's FromRepr
+    for drp in ["u8", "i16"]:
+        vs = [V("Unit0"), V("Tup1", "tuple", [(None, "u8")]), V("Big2"), V("Last3")]
+        out.append(E("Dsc%04d" % eid, "discriminants", ["EnumDiscriminants", "FromRepr"], vs, disc_attrs=[["repr(%s)" % drp], ["derive(FromRepr)"]]))
+        eid += 1
+    # several copied attributes of one kind on a variant: multi-line documentation, two pass-throughs
+    vs = base()
+    vs[0].docs = [" first line", " second line", "", " fourth line"]
+    vs[1].raw_attrs = ["#[strum_discriminants(strum(message = \"m1\"))]", "#[strum_discriminants(strum(detailed_message = \"d1\", props(sides = \"4\")))]"]
+    vs[2].docs = [" only line"]
+    vs[2].mid_lines = ["#[allow(dead_code)]", "#[allow(unused)]"]
+    out.append(E("Dsc%04d" % eid, "discriminants", ["EnumDiscriminants"], vs, disc_attrs=[["derive(EnumMessage, EnumProperty)"]]))
+    eid += 1
     # unit-only enums whose literal discriminants are contiguous but not ascending / ascending with a gap / all implicit
     for k, (rp, discs) in enumerate([(None, ["2", "1", "0"]), ("u8", ["0x12", "0x10", None]), ("i8", ["-1", "-2", "-3"]), (None, ["0", "2", "1"]), ("u16", ["5", None, "4"])]):
         vs = [V("High"), V("Medium"), V("Low")]
